@@ -334,9 +334,8 @@ fn regression_sources() -> Vec<(String, String)> {
     out
 }
 
-/// Grammar-generated programs in the pipeline stream (enabled once the defects they reach at once —
-/// body-less function + block, spawn signature — are repaired in /repo).
-const GRAMMAR_STREAM: bool = false;
+/// Grammar-generated programs in the pipeline stream (3 of 13 draws in both tiers).
+const GRAMMAR_STREAM: bool = true;
 
 fn part_pipeline(ev: &mut Ev, opts: &Opts) {
     let mut corpus = regression_sources();
